@@ -17,6 +17,10 @@ CHECKS = {
   "Seeded search over edit histories on generated sharing topologies: after every accepted operation every calculated attribute of every object reachable from the system is compared hour by hour with a system rebuilt from the same final inputs; plus the before/after reference totals. Sampling evidence, not proof: a clean batch bounds the defect rate of histories of this shape.",
   "Trusts the library's from-scratch computation as the reference (formula errors common to both are invisible), pint/pandas, and the 1e-9 relative tolerance; histories of <= 12 (quick) / 24 (thorough) operations on <= 3 usage patterns.",
   "deterministic simulation: seeded operation histories vs rebuilt reference model, every step"),
+"C05": ("exploration", "3.C05",
+  "Seeded histories in which dated what-if simulations (1-3 changes: numeric, categorical, hourly, link, list and mixtures; dates at the first, interior and last hour, before/after/far outside the period, naive) are created at random points of an edit history, with invalid values (refused by validation) and state-derived failing values (recomputation raising midway at every raising update function) injected into the change list, followed by random set/reset toggle strings. Oracle: an identity snapshot of the whole baseline (same value objects for every input and calculated value, same link targets, same dependency edges as id sets with no non-current reference, labels, sources) is unchanged after the constructor returns or raises and after every toggle string ending in the off state; the first accepted edit after a simulation is compared with a rebuilt reference.",
+  "Book-keeping attributes (previous_*, all_changes, simulation, twins, contextual containers) are excluded from 'unchanged'; edge lists compared as sets of node ids; the degenerate empty-device-list fault is excluded.",
+  "deterministic simulation: seeded histories with what-if simulations, validation and recomputation faults, toggle sequences; identity snapshot oracle"),
 "C14": ("fault_enumeration", "3.C14",
   "Fault enumeration: for every (class, constructor parameter) pair of the public class list, every invalid-value kind of the catalogue (wrong dimension, negative, wrong types, wrong-class list members, values outside allowed / conditional lists, key changes invalidating a dependent value) is injected at construction, as a single assignment, inside grouped updates (both orders) and through the list mutators on a computed model holding all 18 classes; the call must raise and an identity snapshot of the whole model (same value objects, same links, same dependency edges) must be unchanged. Further runs place catalogue faults at random points of seeded edit histories and compare the next accepted edit with a rebuilt reference.",
   "Catalogue kinds are those named by the statement; None for a required quantity, hourly series of another length/dimension and wrong-class scalar links are injected with the weaker oracle 'if refused, nothing changed'. Book-keeping attributes (previous_*, all_changes, contextual containers) are excluded from 'unchanged'.",
